@@ -27,7 +27,7 @@ func init() {
 		},
 		Gates: func(tier string) map[string]int64 {
 			return map[string]int64{"streams": 200, "cuts": 20000, "cut_in_size": 500, "cut_in_body": 5000, "cut_at_boundary": 1000, "size_varint_2": 20, "size_varint_3": 1,
-				"empty_messages": 20, "too_large": 100, "maxsize_ok": 100, "messages_read": 20000, "bufio_fallback": 100}
+				"empty_messages": 20, "reused_destination_reads": 2000, "reused_destination_empty_frames": 300, "too_large": 100, "maxsize_ok": 100, "messages_read": 20000, "bufio_fallback": 100}
 		},
 		Run: runC27,
 	})
@@ -285,6 +285,7 @@ func runC27(c *core.Ctx, b core.Batch) {
 		return
 	}
 	types := shard(codecTypes(b), b.N, 15)
+	c27Reuse(c, types)
 	nStreams := c.Scale(30, 600)
 	for k := 0; k < nStreams; k++ {
 		r := c.Rng(uint64(k))
@@ -408,6 +409,53 @@ func c27Big(c *core.Ctx) {
 		for _, t := range []int{1, 2, 3, 4, 5, 4096, len(s.stream) - 1} {
 			for _, kind := range []string{"bufio4096", "bytes", "bufio16"} {
 				c27ReadCut(c, s, t, kind, r)
+			}
+		}
+	}
+}
+
+// c27Reuse: one destination message reused for every frame of a same-type
+// stream that mixes populated and empty messages (the k-th UnmarshalFrom must
+// return message k whatever the destination held before).
+func c27Reuse(c *core.Ctx, types []protoreflect.MessageType) {
+	for ti, mt := range types {
+		for k := 0; k < c.Scale(2, 12); k++ {
+			r := c.Rng(uint64(7000000 + ti*100 + k))
+			var msgs []protoreflect.Message
+			n := 3 + r.Intn(5)
+			for i := 0; i < n; i++ {
+				m := mt.New()
+				if r.Chance(1, 2) {
+					fo := fillOptsFor(k + i)
+					fo.Unknown = gen.KeepsUnknown(m)
+					gen.Fill(r, m, fo)
+				}
+				msgs = append(msgs, m)
+			}
+			s := c27Build(c, msgs)
+			if s == nil {
+				continue
+			}
+			for _, kind := range c27Readers {
+				rd := c27Reader(kind, s.stream, r)
+				uo := protodelim.UnmarshalOptions{UnmarshalOptions: proto.UnmarshalOptions{AllowPartial: true}, MaxSize: -1}
+				dst := mt.New()
+				c.Log("C27 reuse type=%s reader=%s stream=%s", mt.Descriptor().FullName(), kind, core.Hex(s.stream))
+				for i, want := range msgs {
+					c.Eval()
+					c.Count("reused_destination_reads")
+					if len(s.encs[i]) == 0 {
+						c.Count("reused_destination_empty_frames")
+					}
+					var err error
+					if !c.NoPanic("reuse:panic:"+kind, map[string]any{"stream": core.Hex(s.stream)}, func() { err = uo.UnmarshalFrom(rd, dst.Interface()) }) {
+						break
+					}
+					if err != nil || !proto.Equal(dst.Interface(), want.Interface()) {
+						c.Violation(fmt.Sprintf("reuse:message-%s-frame-into-populated-destination:%s", map[bool]string{true: "empty", false: "non-empty"}[len(s.encs[i]) == 0], kind), map[string]any{"stream": core.Hex(s.stream), "index": i, "err": errStr(err), "type": string(mt.Descriptor().FullName())})
+						break
+					}
+				}
 			}
 		}
 	}
